@@ -30,6 +30,10 @@
 //!                     runtime during the burst. After the burst was handled a task is woken from
 //!                     another thread while the runtime is blocked in poll_with(2.5 s): the wait
 //!                     must end promptly. out: [6; drv; cap*1000+burst; burst_ok; ms; lost; 0].
+//!   mode 7 (wake during poll) a = rounds, b = cross-thread queue size. Wake #1 from another thread makes
+//!                     the runtime poll a task; while that poll is running (handshake) wake #2 is issued
+//!                     from the other thread and has returned before the poll ends: the task must be
+//!                     polled again. out: [7; drv; rounds; done; 0; lost; 0].
 //! out:  [mode; drv; r1; r2; r3; r4; n; (kind thread arg)*n]   (meaning of r* per mode)
 //!       the events are the AwakeFlag / notifier / enter hook events, thread 0 =
 //!       the driver thread.
@@ -842,6 +846,128 @@ fn cq_burst(drv: u64, cap: u64, burst: u64, wake_in_burst: u64, seed: u64) -> Re
     Ok(vec![6, drv, cap * 1000 + burst, burst_ok, elapsed.min(100_000), lost, 0])
 }
 
+// ---------------------------------------------------------------------------
+// mode 7: a cross-thread wake that arrives DURING a poll of the task, where that poll was itself
+// caused by a cross-thread wake (the task's SCHEDULED bit was set by the first waker): the second
+// wake may be coalesced only if the task is polled again afterwards.
+
+struct GateProbe {
+    polls: AtomicU64,
+    waker: Mutex<Option<Waker>>,
+    armed: AtomicBool,
+    in_poll: AtomicBool,
+    proceed: AtomicBool,
+    done: AtomicBool,
+}
+
+struct GateFut(Arc<GateProbe>);
+
+impl Future for GateFut {
+    type Output = ();
+
+    fn poll(self: Pin<&mut Self>, cx: &mut Context<'_>) -> Poll<()> {
+        let p = &self.0;
+        p.polls.fetch_add(1, SeqCst);
+        if p.done.load(SeqCst) {
+            return Poll::Ready(());
+        }
+        *p.waker.lock().unwrap() = Some(cx.waker().clone());
+        if p.armed.swap(false, SeqCst) {
+            // tell the helper we are inside the poll and wait until its second wake has returned
+            p.in_poll.store(true, SeqCst);
+            let t = Instant::now();
+            while !p.proceed.load(SeqCst) && t.elapsed() < Duration::from_secs(2) {
+                std::thread::yield_now();
+            }
+            p.proceed.store(false, SeqCst);
+        }
+        Poll::Pending
+    }
+}
+
+fn wake_in_poll(drv: u64, rounds: u64, q: u64, seed: u64) -> Result<Vec<u64>, BadCase> {
+    if rounds == 0 || rounds > 100 || q == 0 || q > 4096 {
+        return Err(BadCase);
+    }
+    let mut rng = Rng(seed | 1);
+    let mut pb = ProactorBuilder::new();
+    pb.driver_type(driver_type(drv));
+    let mut rb = RuntimeBuilder::new();
+    rb.with_proactor(pb).sync_queue_size(q as usize);
+    let rt = rb.build().map_err(|_| BadCase)?;
+    let probe = Arc::new(GateProbe {
+        polls: AtomicU64::new(0),
+        waker: Mutex::new(None),
+        armed: AtomicBool::new(false),
+        in_poll: AtomicBool::new(false),
+        proceed: AtomicBool::new(false),
+        done: AtomicBool::new(false),
+    });
+    let main = Probe::new();
+    let task = rt.spawn(GateFut(probe.clone()));
+    let (p2, m2) = (probe.clone(), main.clone());
+    let pauses: Vec<u64> = (0..rounds).map(|_| rng.next() % 1500).collect();
+    let helper = std::thread::spawn(move || {
+        let mut lost = 0u64;
+        let mut done_rounds = 0u64;
+        let wait = |f: &dyn Fn() -> bool, ms: u64| {
+            let t = Instant::now();
+            while !f() {
+                if t.elapsed() > Duration::from_millis(ms) {
+                    return false;
+                }
+                std::thread::sleep(Duration::from_micros(200));
+            }
+            true
+        };
+        // the first poll exports the waker
+        wait(&|| p2.waker.lock().unwrap().is_some(), 3000);
+        for us in pauses {
+            std::thread::sleep(Duration::from_micros(us));
+            let Some(w) = p2.waker.lock().unwrap().clone() else { break };
+            p2.in_poll.store(false, SeqCst);
+            p2.armed.store(true, SeqCst);
+            w.wake_by_ref(); // wake #1: makes the runtime poll the task
+            if !wait(&|| p2.in_poll.load(SeqCst), 2500) {
+                lost += 1; // wake #1 itself never led to a poll
+                p2.armed.store(false, SeqCst);
+                done_rounds += 1;
+                continue;
+            }
+            let before = p2.polls.load(SeqCst);
+            w.wake_by_ref(); // wake #2: arrives while the task is being polled
+            p2.proceed.store(true, SeqCst);
+            if !wait(&|| p2.polls.load(SeqCst) > before, 1500) {
+                lost += 1;
+            }
+            done_rounds += 1;
+        }
+        p2.done.store(true, SeqCst);
+        if let Some(w) = p2.waker.lock().unwrap().clone() {
+            w.wake();
+        }
+        m2.done.store(true, SeqCst);
+        let t = Instant::now();
+        loop {
+            if let Some(w) = m2.waker.lock().unwrap().clone() {
+                w.wake();
+                break;
+            }
+            if t.elapsed() > Duration::from_secs(3) {
+                break;
+            }
+            std::thread::sleep(Duration::from_millis(1));
+        }
+        (done_rounds, lost)
+    });
+    rt.block_on(ProbeFut(main.clone()));
+    let (done_rounds, lost) = helper.join().map_err(|_| BadCase)?;
+    rt.enter(|| rt.run());
+    drop(task);
+    drop(rt);
+    Ok(vec![7, drv, rounds, done_rounds, 0, lost, 0])
+}
+
 fn run(case: &[u64]) -> Result<Vec<u64>, BadCase> {
     let mut c = Case::new(case);
     let mode = c.take()?;
@@ -860,6 +986,7 @@ fn run(case: &[u64]) -> Result<Vec<u64>, BadCase> {
         4 => executor(drv, a, b, cc, seed),
         5 => ext_loop(drv, a, b, cc, seed),
         6 => cq_burst(drv, a, b, cc, seed),
+        7 => wake_in_poll(drv, a, b, seed),
         _ => Err(BadCase),
     }
 }
